@@ -1,7 +1,156 @@
-// Package c10 interprets the C10 op language against the real packages (stub).
+// Package c10 interprets the C10 op language against the real packages: a throttling flow rule is
+// loaded with flow.LoadRules, every request is an api.Entry on the rule's resource, the wait is what the
+// flow slot asked the (virtual) clock to sleep. Schedule cases run one api.Entry per worker goroutine
+// under go/internal/sched, parking at the `th.*` yield hooks of ThrottlingChecker.DoCheck.
 package c10
 
-import "verifharness/internal/vh"
+import (
+	"fmt"
+	"strings"
+	"time"
 
-// New returns the interpreter for C10.
-func New() vh.Interp { return nil }
+	"github.com/alibaba/sentinel-golang/api"
+	"github.com/alibaba/sentinel-golang/core/base"
+	"github.com/alibaba/sentinel-golang/core/flow"
+	"github.com/alibaba/sentinel-golang/core/stat"
+	"verifharness/internal/sched"
+	"verifharness/internal/vh"
+)
+
+type decl struct {
+	clock uint64
+	batch uint32
+}
+
+type Interp struct {
+	clk    *vh.Clock
+	n      int
+	res    string
+	loaded bool
+	decls  []decl
+}
+
+func New() vh.Interp {
+	vh.Silence()
+	return &Interp{clk: vh.NewClock(1_900_000_000_000)}
+}
+
+func (it *Interp) Reset() {
+	_ = flow.ClearRules()
+	stat.ResetResourceNodeMap()
+	it.n++
+	it.res = fmt.Sprintf("c10-%d", it.n)
+	it.loaded = false
+	it.decls = nil
+	it.clk.Sleeps = nil
+}
+
+// one request through the public API; returns "block" or "pass" (the wait is read from the clock's Sleeps)
+func (it *Interp) entry(batch uint32) string {
+	e, berr := api.Entry(it.res, api.WithBatchCount(batch))
+	if berr != nil {
+		if berr.BlockType() == base.BlockTypeFlow {
+			return "block"
+		}
+		return "block-" + berr.BlockType().String()
+	}
+	e.Exit()
+	return "pass"
+}
+
+func sum(ds []time.Duration) (s time.Duration) {
+	for _, d := range ds {
+		s += d
+	}
+	return
+}
+
+func (it *Interp) Step(t []string, op string) string {
+	switch t[0] {
+	case "load":
+		if it.loaded {
+			panic("second load in one case")
+		}
+		th, ok := vh.ParseFBits(t[1])
+		if !ok {
+			panic("bad threshold " + t[1])
+		}
+		r := &flow.Rule{
+			Resource:               it.res,
+			TokenCalculateStrategy: flow.Direct,
+			ControlBehavior:        flow.Throttling,
+			Threshold:              th,
+			StatIntervalInMs:       uint32(vh.U(t[2])),
+			MaxQueueingTimeMs:      uint32(vh.U(t[3])),
+		}
+		if _, err := flow.LoadRules([]*flow.Rule{r}); err != nil {
+			panic(err)
+		}
+		if len(flow.GetRulesOfResource(it.res)) != 1 {
+			panic("rule not in force")
+		}
+		it.loaded = true
+		return ""
+	case "clock":
+		it.clk.Ns = vh.U(t[1])
+		return ""
+	case "req":
+		n0 := len(it.clk.Sleeps)
+		r := it.entry(uint32(vh.U(t[1])))
+		if w := sum(it.clk.Sleeps[n0:]); r == "pass" && len(it.clk.Sleeps) > n0 {
+			return fmt.Sprintf("wait %d", int64(w))
+		}
+		return r
+	case "thread":
+		if int(vh.U(t[1])) != len(it.decls) || t[3] != "req" {
+			panic("bad thread declaration")
+		}
+		it.decls = append(it.decls, decl{vh.U(t[2]), uint32(vh.U(t[4]))})
+		return ""
+	case "sched":
+		sc, err := sched.ParseSchedule(t[1:])
+		if err != nil {
+			panic(err)
+		}
+		decls := it.decls
+		it.decls = nil
+		res := make([]string, len(decls))
+		waits := make([]time.Duration, len(decls))
+		slept := make([]bool, len(decls))
+		ws := make([]func(), len(decls))
+		for i := range decls {
+			i := i
+			ws[i] = func() { res[i] = it.entry(decls[i].batch) }
+		}
+		seen := len(it.clk.Sleeps)
+		rep := sched.Run(ws, sc, sched.Options{
+			Prefixes:    []string{"th."},
+			BeforeStart: func(i int) { it.clk.Ns = decls[i].clock },
+			OnTick:      func(ns uint64) { it.clk.Ns += ns },
+			AfterStep: func(s sched.Step) {
+				// exactly one worker ran since the last call: a Sleep requested meanwhile is its wait
+				if n := len(it.clk.Sleeps); n > seen {
+					waits[s.Tid] += sum(it.clk.Sleeps[seen:n])
+					slept[s.Tid] = true
+					seen = n
+				}
+			},
+		})
+		if rep.Err != nil {
+			panic(rep.Err)
+		}
+		out := make([]string, len(decls))
+		for i := range decls {
+			switch {
+			case rep.Threads[i].Panic != nil:
+				out[i] = fmt.Sprintf("%d:panic", i)
+			case res[i] == "pass" && slept[i]:
+				out[i] = fmt.Sprintf("%d:wait:%d", i, int64(waits[i]))
+			default:
+				out[i] = fmt.Sprintf("%d:%s", i, res[i])
+			}
+		}
+		return "[" + strings.Join(out, ",") + "]"
+	}
+	panic("bad op " + op)
+}
